@@ -466,7 +466,9 @@ func (sc *StructCase) prefill(v reflect.Value) {
 			}
 			f.Set(reflect.ValueOf(c))
 		case KMSlice:
-			f.Set(reflect.ValueOf(map[string][]int{"p": {1, 2, 3}, "z": {9}}))
+			// two entries share one backing array, as when the same default slice is handed out twice
+			def := []int{1, 2, 3}
+			f.Set(reflect.ValueOf(map[string][]int{"p": def, "q": def[:2], "z": {9}}))
 		case KMIface:
 			f.Set(reflect.ValueOf(map[string]interface{}{"z": "zz"}))
 		case KDInt:
